@@ -71,6 +71,13 @@ def buttons (held : Held) (r : Report) : Option Nat × Held :=
   else if low = 3 then (none, .unknown)
   else (some (buttonOf low), .yes)
 
+/-- codes xterm defines as wheel left / wheel right (66, 67 plus modifier bits; not motion).  The statement does not
+fix what the event says for them, but its five masks are "as xterm defines them" (codes 0, 1, 2, 64, 65): such a report
+must carry none of them (`forbidden`); the Go oracle (`specMouse` / class `mouse-hwheel-misreported`) demands the same. -/
+def hwheel (c : Nat) : Bool := bit c 6 && !bit c 5 && bit c 1
+
+def forbidden (c : Nat) : List Nat := if hwheel c then [button1, button2, button3, wheelUp, wheelDown] else []
+
 /-- the event the statement demands: position, buttons (if fixed), modifiers -/
 structure Expect where
   x : Int
